@@ -358,9 +358,26 @@ func (c *xsyncMap) DeleteExpired() {
 	c.items.Range(func(k string, v interface{}) bool {
 		i := v.(item)
 		if i.expiredWithNow(now) {
-			c.items.Delete(k)
-			if ec != nil {
-				evictedItems = append(evictedItems, kv{k, i.v})
+			// Re-check under the bucket lock: the entry may have been
+			// replaced or removed since the snapshot was taken.
+			var (
+				removed item
+				deleted bool
+			)
+			c.items.Compute(k, func(value interface{}, loaded bool) (interface{}, bool) {
+				if !loaded {
+					return nil, true
+				}
+				cur := value.(item)
+				if !cur.expiredWithNow(now) {
+					// k has a new value
+					return cur, false
+				}
+				removed, deleted = cur, true
+				return nil, true
+			})
+			if deleted && ec != nil {
+				evictedItems = append(evictedItems, kv{k, removed.v})
 			}
 		}
 		return true
